@@ -30,7 +30,8 @@ struct Plan {
     uint64_t lat_lo = 20000, lat_hi = 200000, cost_lo = 200, cost_hi = 3000, tend = 100000000ULL, quiet_t = 0, drain = 60000000ULL;
     size_t qcap = 64, cantxq = 0, lstack = 0;  // lstack: stack of the listener limited to this many KiB (0 = the full 512)
     int64_t skew[4] = {0, 0, 0, 0};
-    bool stdin_eof = false, o0 = false, ethpad = false, argorder = false;
+    bool stdin_eof = false, ethpad = false, argorder = false;
+    int o0 = 0;  // which copy of programs+library runs: 0 = clang -O1, 1 = clang -O0 (unsigned char), 2 = gcc -O2
     int addr = 0;            // 0: aa:bb:cc:dd:ee:02 / 10.0.0.2; 1..3: other destination MAC and IP address
     int port = 0;            // UDP port of the tunnel (0 = the programs' default 17220)
     bool env_on = false;
